@@ -18,6 +18,15 @@ theorem scanContinues_iff (off : Int) (n : Nat) : scanContinues off n = true ↔
     `unsigned char` -/
 theorem split_agrees : splitOp = ">" ∧ splitBound = runMax ∧ splitLen = runMax ∧ splitDec = runMax := by decide
 
+/-- `find_line` rejects exactly the offsets GREATER than the program size (offset = size, the pc behind the last
+    instruction, is decoded) -/
+theorem psizeRejects_iff (off : Int) (n : Nat) : psizeRejects off n = true ↔ off > (n : Int) := by
+  simp [psizeRejects]
+
+/-- the source has no end-pointer test in the walk of `find_line` (bridging lemma for `Gen.C18.scanBounded`): the scan
+    depends on the runs only, never on the stored table size `file_info[0]` -/
+theorem scan_unbounded : scanBounded = false := rfl
+
 theorem findRun_cons (r : Run) (rest : List Run) (off : Int) :
     findRun (r :: rest) off = if off > (r.len : Int) then findRun rest (off - r.len) else some r := by
   simp [findRun, scanContinues]
